@@ -30,7 +30,10 @@ _TMP = None
 def tmpdir():
     global _TMP
     if _TMP is None:
-        _TMP = tempfile.mkdtemp(prefix="verif_gro_")
+        # tmpfs when there is one: truncating a file on the ext4 root (mounted with discard) costs a
+        # block-device round trip, and the truncation checks rewrite one small file ~10^5 times
+        base = "/dev/shm" if os.path.isdir("/dev/shm") and os.access("/dev/shm", os.W_OK) else None
+        _TMP = tempfile.mkdtemp(prefix="verif_gro_", dir=base)
         atexit.register(lambda: shutil.rmtree(_TMP, ignore_errors=True))
     return _TMP
 
